@@ -66,6 +66,11 @@ CHECKS = {
    text="Model Front/Quantum.v transcribes QasmToBmMatrices / BmMatrixFromOperation / swaps2baseSwaps with basis states as bit lists; Front/Cyclo8.v gives exact arithmetic for every gate of the supported set with angles k*pi/2 (rotations) and k*pi/4 (phases). Each run: random circuits (1-4 qubits quick, 1-5 thorough; arbitrary distinct arguments, single two-qubit gate per layer, neighbours, dense two-qubit layers) are compiled by the Go code; every emitted matrix entry is compared with the exact model entry (tolerance 2e-5 against exact values), every emitted matrix is checked unitary, the product and every software-simulated basis state are compared with the reference unitary. The pre-fix code (original qubit numbers used as positions) is kept in the model as layer_matrix_old and refuted.",
    design_ref="DESIGN.md section 5, C14",
    note="Trusted: Coq kernel; Front/Quantum.v hand transcription, bit-list vs numeric index correspondence checked by the entrywise comparison; Front/Cyclo8.v gate table; float tolerance."),
+ "C07": dict(
+   technique="Coq proofs of order independence for the loop shapes through which Go's map iteration order and goroutine timing enter the build tools (commuting visits, keyed writes, maximum accumulation, sort-before-emit, first-match over pairwise disjoint matchers, the compiler's worker protocol), an inventory of every map range and clock/random use found with go/types on every run and classified in a committed table, and byte comparison of every artefact over repeated fresh-process runs with varied GOMAXPROCS",
+   text="Proof (on models with the visiting order as an explicit argument): visit_all_perm and its invariant form, keyed writes observably order-free, max accumulation, opcode-list selection independent of the order objectSet.getReqs answers in, emit-after-sort independent of the map order (mathcomp sort), ImportString independent of matcher order (from the regenerated matcher table, C08), compiler result independent of worker interleaving (C12 LTS). Every map-range site of the tool packages (206 at the pinned tree) is listed by harness/sites.go and must appear in translators/c07_sites.json with a class; an unlisted site fails the check; sites whose order can reach an artefact are known findings unless repaired. Dynamic: basm (with requirements dump), bondgo (single and multi processor), neuralbond->basm, bmqsim->basm, bondmachine -create-verilog, 6 (quick) / 24 fresh runs per input with GOMAXPROCS 1/2/4/16, plus in-process repetition. The tie between the order argument and the Go runtime is statistical.",
+   design_ref="DESIGN.md section 5, C07",
+   note="Trusted: Coq kernel; Front/Order.v, Front/SortedEmit.v loop-shape models; the manual class of each site in translators/c07_sites.json; harness/sites.go (go/types)."),
 }
 NOT_APPLICABLE = []
 
